@@ -194,6 +194,7 @@ func cmdCheck(args []string) int {
 	// adequacy run (thorough only): never changes the verdict
 	var adequacy []MutantResult
 	var seedRes []SeedResult
+	var ctlRes []ControlResult
 	if *tier == "thorough" {
 		adequacy = runMutants(*repo, *prop, pd.Rules, "thorough")
 		base := map[string]bool{}
@@ -203,6 +204,7 @@ func cmdCheck(args []string) int {
 			}
 		}
 		seedRes = runSeeds(*repo, *verif, *prop, pd.Rules, "thorough", base)
+		ctlRes = runControls(*repo, *verif, pd.Rules, "thorough", base)
 	}
 
 	// evidence
@@ -286,6 +288,15 @@ func cmdCheck(args []string) int {
 		for _, sr := range seedRes {
 			if sr.Outcome != "selftest-killed" {
 				fmt.Fprintf(os.Stderr, "adequacy: stored seeded change %s: %s %s\n", sr.ID, sr.Outcome, sr.Note)
+			}
+		}
+	}
+	if ctlRes != nil {
+		cov["negative_controls"] = ctlRes
+		cov["negative_controls_rule"] = "stored sets of behaviour-preserving refactorings (/verif/refactors/*/all.diff, written by independent agents, suite-passing) replayed as overlays; the rules must report nothing new on them"
+		for _, cr := range ctlRes {
+			if cr.Outcome != "control-silent" {
+				fmt.Fprintf(os.Stderr, "negative control %s: %s %v %s\n", cr.ID, cr.Outcome, cr.By, cr.Note)
 			}
 		}
 	}
